@@ -86,7 +86,7 @@ var variants = map[string][]string{
 	"roothash.SubmitMsg":      {"valid", "valid", "fee-too-low", "unknown-runtime", "too-much", "cbor"},
 
 	"vault.Create": {"valid", "valid-2of3", "no-addresses", "zero-threshold", "threshold-too-big", "cbor"},
-	"vault.AuthorizeAction": {"exec-transfer", "exec-transfer", "suspend", "resume", "exec-too-much", "exec-unknown-method", "exec-malformed", "exec-add-escrow",
+	"vault.AuthorizeAction": {"exec-transfer", "exec-transfer", "suspend", "resume", "exec-too-much", "exec-unknown-method", "exec-malformed", "exec-add-escrow", "exec-withdraw", "exec-withdraw-self", "policy-self",
 		"policy", "authority", "authority-invalid", "wrong-nonce", "not-authorized", "unknown-vault", "different-action", "two-actions", "cbor"},
 	"vault.CancelAction": {"valid", "wrong-nonce", "not-authorized", "unknown-vault", "cbor"},
 
@@ -244,6 +244,18 @@ func genHistory(r *hlib.Rng, w *world, blocks int) []string {
 		if b%5 == 4 {
 			for nn := numValidators; nn < numValidators+numCompute; nn++ {
 				add(txl("registry.RegisterNode", "valid-renew", nn, r))
+			}
+		}
+		if r.Chance(1, 6) {
+			// a vault with a withdraw policy on its own account withdraws from itself
+			k := r.Intn(2)
+			add(txl("vault.AuthorizeAction", "policy-self", k, r))
+			if k == 1 {
+				add(txl("vault.AuthorizeAction", "policy-self", k, r)) // second authorization of the 2-of-3 vault
+			}
+			add(txl("vault.AuthorizeAction", "exec-withdraw-self", k, r))
+			if k == 1 {
+				add(txl("vault.AuthorizeAction", "exec-withdraw-self", k, r))
 			}
 		}
 		if r.Chance(1, 6) {
